@@ -4342,6 +4342,14 @@ def _parse_simple_lines(
     return body
 
 
+def _is_python_source(src: str) -> bool:
+    try:
+        ast.parse(src)
+    except Exception:
+        return False
+    return True
+
+
 def parse(src: str) -> Program:
     """Parse ``src`` into a :class:`~Reduino.transpile.ast.Program`.
 
@@ -4352,6 +4360,13 @@ def parse(src: str) -> Program:
 
     try:
         return _parse_program(src)
+    except SyntaxError as exc:
+        # the parser works on fragments of lines; a fragment that does not stand on its
+        # own (``x := 3`` cut out of ``sleep(x := 3)``) must not make valid Python look
+        # like a syntax error
+        if _is_python_source(src):
+            raise ValueError(f"unsupported syntax: {exc.msg}") from exc
+        raise
     except RecursionError as exc:
         raise ValueError("expression is nested too deeply") from exc
     except OverflowError as exc:
